@@ -416,6 +416,51 @@ def tokenizeDoctest (lines : List Line) (start blockIndent : Nat) : List Char ×
   let r := dtLoop blockIndent (lines.drop (start + 1)) (start + 1) blockIndent []
   (joinNL ((slice lines start r.1).map (·.drop r.2.1)), r.1, r.2.2)
 
+/-! ## `_tokenize_para`: does a paragraph look like a heading?
+
+```
+contents = [ln.strip() for ln in lines[start:linenum]]
+if len(contents) < 2 or contents[1][0] not in _HEADING_CHARS or abs(len(contents[0])-len(contents[1])) > 5:
+    looks_like_heading = False
+else:
+    looks_like_heading = True
+    for char in contents[1]:
+        if char != contents[1][0]: looks_like_heading = False; break
+if looks_like_heading:
+    if len(contents[0]) != len(contents[1]): errors.append("Possible heading typo…", non fatal)   # stays a paragraph
+    else: HEADING token, level = _HEADING_CHARS.index(contents[1][0]); return start+2
+PARA token
+``` -/
+
+/-- `_HEADING_CHARS = '=-~'` -/
+def headingChars : List Char := ['=', '-', '~']
+
+inductive HeadOutcome
+  | heading (level : Nat)     -- the first line is a section title, the second line is consumed as its underline
+  | typo                      -- "Possible heading typo" (warning); both lines stay paragraph text
+  | para                      -- an ordinary paragraph
+  | indexError                -- `contents[1][0]` on an empty line (lines of a paragraph are never empty)
+  deriving DecidableEq, Repr
+
+/-- `abs(a - b) > 5` -/
+def farApart (a b : Nat) : Bool := (a - b) + (b - a) > 5
+
+/-- the `for char in contents[1]` loop -/
+def allSame (c : Char) : List Char → Bool
+  | [] => true
+  | x :: xs => if x ≠ c then false else allSame c xs
+
+/-- `c0`, `c1` = `contents[0]`, `contents[1]` (`none`: the paragraph has one line) -/
+def headingOf (c0 : List Char) (c1 : Option (List Char)) : HeadOutcome :=
+  match c1 with
+  | none => .para
+  | some [] => .indexError
+  | some (h :: t) =>
+    if !headingChars.contains h || farApart c0.length (h :: t).length then .para
+    else if !allSame h (h :: t) then .para
+    else if c0.length ≠ (h :: t).length then .typo
+    else .heading (headingChars.idxOf h)
+
 /-! ## plaintext: `ParsedPlaintextDocstring.to_stan` = `tags.p(self._text, class_='pre')` -/
 
 /-- children of the `<p class="pre">` tag -/
@@ -643,6 +688,34 @@ def outcome (tag fn : String) (k : ObjKind) (s : Shape) : Outcome :=
   let h := handler fn k s
   let x := extractFields tag k s
   { h with toAttr := h.toAttr || x.1, attrShown := h.attrShown || x.2.1, reported := h.reported || x.2.2 }
+
+/-! ### the paired handlers: `handle_return`/`handle_returntype` and `handle_yield`/`handle_yieldtype`
+
+```
+if not self.return_desc: self.return_desc = ReturnDesc()       # get or create
+self.return_desc.body = field.format()                          # resp. `.type = field.format()`
+```
+Texts are identified by numbers. -/
+
+/-- a description field or a type field of the pair -/
+inductive PairEvent
+  | desc (text : Nat)
+  | type (text : Nat)
+  deriving DecidableEq, Repr
+
+/-- `ReturnDesc` / `FieldDesc`: `body`, `type` -/
+structure PairDesc where
+  body : Option Nat
+  type : Option Nat
+  deriving DecidableEq, Repr
+
+/-- one handler call on `self.return_desc` / `self.yields_desc` (`none` = not created yet) -/
+def pairStep (d : Option PairDesc) : PairEvent → Option PairDesc
+  | .desc t => some { (d.getD ⟨none, none⟩) with body := some t }
+  | .type t => some { (d.getD ⟨none, none⟩) with type := some t }
+
+/-- the fields of a docstring in source order -/
+def runPair (init : Option PairDesc) (evs : List PairEvent) : Option PairDesc := evs.foldl pairStep init
 
 /-- the field is not lost: displayed under a heading, given to an attribute, or reported -/
 def Outcome.kept (o : Outcome) : Bool :=
